@@ -97,3 +97,52 @@ Fixpoint l_run_red (st : lstate) (ops : list lop) : lstate * list dumped :=
       l_run_red (mk_l (map (fun kv => (fst kv, red_val (snd kv))) (l_val st1)) (l_cnt st1) (l_exc st1)) r
   | ODump :: r => let '(st1, d) := l_dump st in let '(st2, ds) := l_run_red st1 r in (st2, d :: ds)
   end.
+
+(* ---- correspondence driver: run the history, compare the pending maps with what the implementation held just
+   before every dump, feed the csv writer model with what the Logger model hands to the csv format, and compare
+   the resulting file with the implementation's bytes.  Everything is decided inside Coq. ---- *)
+From SB3V Require Import Lib.QUtil.
+
+Definition S_ (t : text) : string := string_of_list_ascii t.
+Definition keys_of (m : list (text * lval)) : list string := map (fun kv => S_ (fst kv)) m.
+
+Definition lval_close (m i : lval) : bool :=
+  match m, i with
+  | LNum a, LNum b => qclose (1 # 1000000000) (1 # 1000000000) a b
+  | LStr a, LStr b => text_eqb a b
+  | _, _ => false
+  end.
+
+Definition entry_ok (excl : list (text * list text)) (mv : text * lval) (iv : text * lval * list text) : bool :=
+  let '(ik, ival, iex) := iv in
+  text_eqb (fst mv) ik && lval_close (snd mv) ival
+  && match get_kv ik excl with Some ex => list_eqb text_eqb ex iex | None => false end.
+
+Fixpoint all2b {A B} (f : A -> B -> bool) (a : list A) (b : list B) : bool :=
+  match a, b with
+  | [], [] => true
+  | x :: a', y :: b' => f x y && all2b f a' b'
+  | _, _ => false
+  end.
+
+Definition pending_ok (d : dumped) (impl : list (text * lval * list text)) : bool :=
+  all2b (entry_ok (d_excl d)) (d_pending d) impl.
+
+(* numbers are written as Python's str(value): that text is supplied by the harness *)
+Definition to_field (rend : list (text * text)) (kv : text * lval) : text * field :=
+  match snd kv with
+  | LStr s => (fst kv, FQ s)
+  | LNum _ => (fst kv, FU (match get_kv (fst kv) rend with Some t => t | None => [] end))
+  end.
+
+Definition c20_check (ops : list lop) (impl_pending : list (list (text * lval * list text)))
+           (rends : list (list (text * text))) (extras : list (list text)) (impl_csv : text) :=
+  let '(st, ds) := l_run_red l0 ops in
+  let cds := map (fun x => (map (to_field (fst (snd x))) (d_csv (fst x)), snd (snd x))) (combine ds (combine rends extras)) in
+  let c := csv_run csv0 cds in
+  (all2b pending_ok ds impl_pending,
+   map (fun d => (keys_of (d_csv d), keys_of (d_json d), keys_of (d_log d), keys_of (d_stdout d))) ds,
+   first_diff (c_file c) impl_csv 0,
+   map S_ (c_keys c),
+   table_eqb (parse_csv (c_file c)) (expected_table (c_keys c) cds),
+   List.length (l_val st)).
